@@ -139,6 +139,8 @@ pub fn raw_history(g: &mut Gen, ops: &[usize]) -> Vec<String> {
 }
 
 fn c05(g: &mut Gen) {
+    // "no matter how they were produced": vectors produced by saving and loading
+    crate::gen_ser::iv_reload_groups(g);
     // beyond 2^32 bits (count of set bits and lengths must be full-width): thorough scale only, ~0.6 GiB for a moment
     if g.thorough {
         let big: u64 = (1u64 << 32) + 70;
